@@ -56,7 +56,13 @@ impl File {
     // assumed: A-OS (as_raw_fd lends the descriptor number, ownership unchanged)
     #[verifier::external_body]
     pub fn as_raw_fd(&self) -> (r: RawFd) ensures r as int == self.id@ { unimplemented!() }
+    // giving up ownership of a descriptor (the type system stops closing it) is allowed only at the registered transfer sites
+    // (set_backend_req_fd / set_gpu_socket / VringState::set_* — ledger-checked by Kani); anywhere else it is a leak (C09)
+    #[verifier::external_body]
+    pub fn into_raw_fd(self) -> (r: RawFd) requires false ensures r as int == self.id@ { unimplemented!() }
 }
+#[verifier::external_body]
+pub fn fd_slice1(fd: RawFd) -> (r: Option<&'static [RawFd]>) ensures opt_rawfds(r) == seq![fd as int] { unimplemented!() }
 pub open spec fn file_ids(v: Seq<File>) -> Seq<int> { v.map(|i: int, f: File| f.id@) }
 pub open spec fn opt_file_ids(v: Option<Vec<File>>) -> Seq<int> {
     match v { Some(x) => file_ids(x@), None => Seq::<int>::empty() }
